@@ -15,6 +15,7 @@ def programs(tier, seed):
     P += families.fam_names(seed)
     P += families.fam_hierarchy()
     P += families.fam_edge_templates()
+    P += families.fam_edge_inputs()
     P += families.fam_equal_values()
     if tier == 'thorough':
         P += families.fam_edges_two_nodes(max_edges=2, n_nodes=3)
